@@ -766,6 +766,34 @@ func (g *c06Gen) opFiletreeSetup(u int) {
 			g.ft = append(g.ft, e)
 		}
 	}
+	// an entry whose access lists were written by a sloppy client (the chain stores the JSON as sent): ids that are not
+	// digests, entries without a key, one digest in both letter cases, among a handful of ordinary entries.  Whatever
+	// a handler does with such a list, every node must do the same: the owner adds and removes viewers right away
+	{
+		child := "sloppy"
+		tn2 := "tn" + c06Sha(fmt.Sprintf("%d/%s", u, child))[:16]
+		e := c06FtEntry{Owner: u, Tracking: tn2}
+		e.Address = filetreetypes.AddToMerkle(root.Address, c06Sha(child))
+		e.OwnerStr = filetreekeeper.MakeOwnerAddress(e.Address, c06Sha(creator))
+		who := append([]int{u}, g.someAccounts(4)...)
+		vids, vks := g.ftViewerIDs(e, who)
+		dup := c06Sha(fmt.Sprintf("dup-%d", u))
+		vp := [][2]string{{"short", "k"}, {"x", "k2"}, {c06Sha("nokey-a"), ""}, {c06Sha("nokey-b"), ""}, {dup, "lower"}, {strings.ToUpper(dup), "upper"}}
+		for i := range vids {
+			vp = append(vp, [2]string{vids[i], vks[i]})
+		}
+		res := g.send(u, "filetree.PostFile(sloppy lists)", &filetreetypes.MsgPostFile{Creator: creator, Account: c06Sha(creator), HashParent: root.Address, HashChild: c06Sha(child),
+			Contents: "{}", Viewers: c06AclJSON(vp), Editors: c06AclJSON(vp[:5]), TrackingNumber: tn2})
+		if res.Code == 0 {
+			g.ft = append(g.ft, e)
+			for i := 0; i < 3; i++ {
+				g.send(u, "filetree.AddViewers(sloppy lists)", &filetreetypes.MsgAddViewers{Creator: creator, ViewerIds: c06Sha(fmt.Sprint("late-viewer", i)), ViewerKeys: "vk", Address: e.Address, FileOwner: e.OwnerStr})
+				g.send(u, "filetree.AddEditors(sloppy lists)", &filetreetypes.MsgAddEditors{Creator: creator, EditorIds: c06Sha(fmt.Sprint("late-editor", i)), EditorKeys: "ek", Address: e.Address, FileOwner: e.OwnerStr})
+			}
+			g.send(u, "filetree.RemoveViewers(sloppy lists)", &filetreetypes.MsgRemoveViewers{Creator: creator, ViewerIds: dup, Address: e.Address, FileOwner: e.OwnerStr})
+			g.send(u, "filetree.RemoveViewers(sloppy lists)", &filetreetypes.MsgRemoveViewers{Creator: creator, ViewerIds: c06Sha("nokey-a") + ",short", Address: e.Address, FileOwner: e.OwnerStr})
+		}
+	}
 }
 
 func (g *c06Gen) opFiletreeACL() {
